@@ -27,6 +27,12 @@ func (m *MsgSubmitProofExternalOwnedAccount) ValidateBasic() error {
 		return errorsmod.Wrapf(errors.ErrInvalidRequest, "account to prove is not a valid bech32 account address: %s", m.Account)
 	}
 
+	if len(accAddr) != common.AddressLength {
+		// the signature is verified against the 20 bytes go-ethereum keeps of the address: any other length would let one
+		// signature prove ownership of accounts the key does not control
+		return errorsmod.Wrapf(errors.ErrInvalidRequest, "account to prove must be a %d-byte address: %s", common.AddressLength, m.Account)
+	}
+
 	if bytes.Equal(submitterAccAddr, accAddr) {
 		return errorsmod.Wrapf(errors.ErrInvalidRequest, "submitter and account to prove are equals: %s", m.Account)
 	}
